@@ -477,6 +477,9 @@ func (e *Exec) merge(c *Term, a, b Value) (Value, bool) {
 	case *opaqueErr:
 		bv, ok := b.(*opaqueErr)
 		return av, ok && av == bv
+	case *hashObj:
+		bv, ok := b.(*hashObj)
+		return av, ok && av == bv
 	}
 	return nil, false
 }
@@ -608,6 +611,9 @@ func (e *Exec) equal(a, b Value) *Term {
 		return e.ts.Bool(av == bv)
 	case *opaqueErr:
 		bv, _ := b.(*opaqueErr)
+		return e.ts.Bool(av == bv)
+	case *hashObj:
+		bv, _ := b.(*hashObj)
 		return e.ts.Bool(av == bv)
 	case Slice:
 		bv := b.(Slice)
